@@ -415,6 +415,10 @@ def main():
                 raise Unsupported("%s SnmpSession.refresh is gone" % f)
             events = []    # (kind, lineno, node) in source order of the straight-line / if-nested body
             aliases = {'self._deferred_user'}
+            sock_alias = set()     # locals bound to self._sock (one level: `sock = self._sock`)
+
+            def on_sock(c, meth):
+                return bool(c) and c[-1] == meth and ((len(c) >= 3 and c[-2] == '_sock') or (len(c) == 2 and c[0] in sock_alias))
 
             def is_alias(e):
                 c = attr_chain(e)
@@ -435,19 +439,21 @@ def main():
                         for t, v in pairs:
                             if isinstance(t, ast.Name) and is_alias(v):
                                 aliases.add(t.id)
+                            if isinstance(t, ast.Name) and attr_chain(v) == ['self', '_sock']:
+                                sock_alias.add(t.id)
                         for t, v in pairs:
                             if attr_chain(t) == ['self', '_deferred_user']:
                                 events.append(('forget', st.lineno, v))
                     for n in ast.walk(st):
                         if isinstance(n, ast.Call):
                             c = attr_chain(n.func)
-                            if c and len(c) >= 3 and c[-2] == '_sock' and c[-1] == 'refresh':
+                            if on_sock(c, 'refresh'):
                                 events.append(('roundtrip', n.lineno, n))
                             if c and c[-1] in ('_send', '_recv') and n.args:
                                 a = attr_chain(n.args[0])
                                 if a and a[-1] in ('send_refresh', 'recv_refresh'):
                                     events.append(('roundtrip' if a[-1] == 'recv_refresh' else 'probe', n.lineno, n))
-                            if c and len(c) >= 3 and c[-2] == '_sock' and c[-1] == 'set_keys':
+                            if on_sock(c, 'set_keys'):
                                 events.append(('set_keys', n.lineno, n))
             scan(m.body)
             events.sort(key=lambda e: e[1])
